@@ -215,6 +215,21 @@ def lattice_shape(ctx):
                 o = hfa.origin(ht["args"][1])
                 if o[0] == "arg" and o[1] - 1 < len(t["args"]):
                     out.append((b, t["args"][o[1] - 1], hfa, hb))
+        # ... or in a closure written here (`space_cateset.is_some_and(|s| .. char_info(start_node) ..)`)
+        # with the position captured
+        for b, i, s0 in fa.stmts():
+            rv0 = s0.get("rv") or {}
+            if rv0.get("k") != "agg" or rv0.get("agg") != "closure" or rv0.get("closure") not in crate.fns:
+                continue
+            qfa = E.fa(rv0["closure"])
+            for qb, qt in calls_named(qfa, name):
+                if len(qt["args"]) < 2:
+                    continue
+                ap = E.ap_operand(qfa, qt["args"][1])
+                if ap is not None and ap.root == ("arg", 1) and ap.proj and str(ap.proj[0]).startswith("#"):
+                    k0 = int(str(ap.proj[0])[1:])
+                    if k0 < len(rv0["ops"]):
+                        out.append((b, rv0["ops"][k0], qfa, qb))
         return out
     gr = position_calls("groupable")
     ci = position_calls("char_info")
@@ -253,6 +268,33 @@ def lattice_shape(ctx):
             else:
                 continue
             tests.append((b, nonzero_t, zero_t))
+        if not tests:
+            # the test computed by a closure of an Option combinator and branched on here:
+            # `let is_space = self.space_cateset.is_some_and(|s| (cate_idset & s) != 0); if is_space ..`
+            for b in sorted(gfa.live_blocks()):
+                t = gfa.term(b)
+                if t["k"] != "switch":
+                    continue
+                o = gfa.origin(t["op"])
+                if o[0] != "call":
+                    continue
+                nm = (callee_of(o[2]) or {}).get("name")
+                if nm not in ("is_some_and", "map_or") or len(o[2]["args"]) < 2:
+                    continue
+                if nm == "map_or" and (op_const(o[2]["args"][1]) or {}).get("int") != 0:
+                    continue
+                rcv = show(GS.operand(o[2]["args"][0]))
+                cl_ = E.closure_of_operand(gfa, o[2]["args"][-1])
+                if cl_ is None or "space_cateset" not in rcv:
+                    continue
+                cfa_ = E.fa(cl_[0])
+                r_ = Sym(E, cfa_).place({"l": 0, "p": []})
+                if r_[0] == "binop" and r_[1] == "Ne" and ("const", 0) in (r_[2], r_[3]):
+                    x_ = strip_casts(r_[2] if r_[3] == ("const", 0) else r_[3])
+                    if x_[0] == "binop" and x_[1] == "BitAnd" and "cate_idset(" in show(x_) and \
+                            any(y == ("ap", AP(("arg", 2))) for y in (strip_casts(x_[2]), strip_casts(x_[3]))):
+                        f_t, t_t = bool_switch_targets(t)
+                        tests.append((b, t_t, f_t))
         okp = len(tests) == 1
         why = "%d tests of (categories & SPACE set) against 0 found" % len(tests)
         if okp:
